@@ -204,6 +204,8 @@ def run(ctx):
                    allow=["Run", "Status", "JobFail", "Cancel", "DeleteOutput", "PoolRestart"]), 26, n)]
     # a renamed target has never been submitted under its new name: no job state is its own
     gens += [(dict(backend=b, wfs=proj_check.WFS, jobs=12, env=3, faults=0, cmds=8, anyfs=True, allow=ALLOW + ["Rename"]), 26, n // 2) for b in ("slurm", "lsf")]
+    # a failing queue query is a failed command, whatever the accounting setting (never a reason to ask sacct)
+    gens += [(dict(backend=b, wfs=proj_check.WFS, jobs=12, env=2, faults=2, cmds=8, anyfs=True, allow=ALLOW + ["QueryFail"]), 26, n // 2) for b in ("slurm_noacct", "slurm")]
     # restarts in the middle of plain run/status histories: targets finished under the old pool keep their old
     # ids while the new pool hands out ids to other targets
     gens += [(dict(backend="local", wfs=proj_check.WFS, jobs=12, env=2, faults=0, cmds=8, anyfs=False,
